@@ -3,7 +3,7 @@ CONSTANTS
   Budget = 4
   Enabled = {"Name", "Const", "Set", "Dict", "Comp", "AsyncComp", "NamedExpr", "Await", "Lambda", "Yield", "Tuple", "Expression"}
   NameSet = {"a", "b"}
-  ExtraParens = FALSE
+  ExtraParens = TRUE
   Emit = TRUE
 SPECIFICATION Spec
 INVARIANTS EmitOK
